@@ -216,6 +216,8 @@ def check(pid, tier, seed, replay):
             else:
                 r_replay(ck, pid, mode, 4, P, "zhf")
     ck.cov["exhaustive"] = True
+    if ck.enough():
+        return ck.finish()
     if quick:
         jobs = [(seed + i, 1500, ml) for i, ml in enumerate([2, 4, 4, 6])]
     else:
